@@ -231,7 +231,7 @@ func (h *Handler6) ProcessPacket(pkt packet.Frame) (err error) {
 
 		if Logger6.IsDebug() {
 			l := Logger6.Msg("ether").Struct(pkt.Ether()).Module("icmp6", "ip6").Struct(ip6Frame)
-			l.Module("icmp6", "router advertisement").Struct(icmp6Frame).Sprintf("options", router.Options)
+			l.Module("icmp6", "router advertisement").Struct(icmp6Frame).Sprintf("options", options) // the value just stored in router.Options, read without the lock
 			l.Write()
 		}
 		return nil
